@@ -68,6 +68,8 @@ pub struct Probe<T> {
 impl<T: Repr + Send + Sync + 'static> Probe<T> {
     pub fn new(world: &Arc<World>, idx: usize, output_label: &str, spec: ProbeSpec) -> Arc<Self> {
         let edge = world.new_edge(Role::Probe(idx as u16), format!("S{}", idx), output_label, "probe");
+        // a probe is its own output subscription
+        world.with_edge(edge, |e| e.owner = idx as i32);
         let err: DynErr = Arc::new(ProbeError(idx));
         let err_id = world.register_err(&err, "S");
         Arc::new(Probe {
